@@ -5,7 +5,7 @@ from . import _nodecommon
 from .. import nodegen
 
 ID = "C16"
-SUITES = ["codec", "node"]
+SUITES = ["codec", "node", "init"]
 LEAN_MODULES = ["VpnCloud.Proofs.C16", "VpnCloud.Proofs.C16Init"]
 THEOREMS = ["VpnCloud.Proofs.C16." + n for n in ("range_roundtrip", "rotmsg_roundtrip", "partsOf_flatten", "nodeinfo_roundtrip", "unknown_parts_skipped", "decodeParts_fuel", "readU16_lt")] + ["VpnCloud.Proofs.C16Init.initmsg_roundtrip"]
 BATCH = 100
@@ -185,6 +185,10 @@ def gen(tier, rng):
     yield nodegen.c08_script(rng.fork("node"), "node-handshake-decoder", tier == "thorough")
     # node information with arbitrary content (unknown parts, mixed address families, entries with and without node id) through the real receive path
     yield nodegen.announce_script(rng.fork("announce"), "node-announce", 120 if tier == "thorough" else 50)
+    # the handshake decoder behind the signature check: unknown parts at every boundary, missing / repeated / permuted parts, odd field lengths
+    from .. import initgen
+    for s in initgen.signed_parts_scripts(rng.fork("signed"), tier == "thorough"):
+        yield s
 
 
 obs_class, nontrivial_key = _nodecommon.with_node(obs_class, nontrivial_key)
